@@ -205,6 +205,8 @@ func tryReplay(cfg *runCfg, g *Gen, o *Obligation, dir string) (bool, string) {
 		return ok2, rep + rep2
 	case "ctxio":
 		return varlinkE2E(cfg, o, dir)
+	case "generator":
+		return generatorBounded(cfg, o, dir)
 	}
 	return false, "replay: no replay template for this function; no concrete failing input reproduced on the real code\n"
 }
@@ -268,6 +270,49 @@ func idlSearch(cfg *runCfg, o *Obligation, dir string) (bool, string) {
 	}
 	idlSearchCache.rep = rep.String()
 	return idlSearchCache.ok, idlSearchCache.rep
+}
+
+var genCache struct {
+	sync.Mutex
+	done bool
+	ok   bool
+	rep  string
+}
+
+// generatorBounded: property-level fallback for the generator: the bounded C07 driver (real
+// generateTemplate on the bounded family of descriptions, panics recovered, output type-checked).
+func generatorBounded(cfg *runCfg, o *Obligation, dir string) (bool, string) {
+	genCache.Lock()
+	defer genCache.Unlock()
+	if genCache.done {
+		return genCache.ok, genCache.rep
+	}
+	genCache.done = true
+	tmp, err := os.MkdirTemp("", "govc-gen")
+	if err != nil {
+		return false, "search: cannot create scratch directory\n"
+	}
+	defer os.RemoveAll(tmp)
+	cmd := exec.Command(filepath.Join(cfg.verif, "bounded", "c07", "run.sh"), "quick", cfg.repo)
+	cmd.Env = append(os.Environ(), "VERIF_OUT="+tmp)
+	cmd.CombinedOutput()
+	b, _ := os.ReadFile(filepath.Join(tmp, "replays", "C07", "bounded_typecheck_failures.txt"))
+	var rep strings.Builder
+	rep.WriteString("property-level search (not derived from this obligation's model): the bounded C07 driver - real generateTemplate on the bounded family of descriptions, panics recovered, output type-checked\n")
+	for _, l := range strings.Split(string(b), "\n") {
+		if strings.HasPrefix(l, "BOUNDED-FAIL") {
+			genCache.ok = true
+			if len(l) > 600 {
+				l = l[:600] + "..."
+			}
+			rep.WriteString("REPLAY-FAIL " + l + "\n")
+		}
+	}
+	if !genCache.ok {
+		rep.WriteString("search: no failing description found\n")
+	}
+	genCache.rep = rep.String()
+	return genCache.ok, genCache.rep
 }
 
 var e2eCache struct {
